@@ -448,6 +448,28 @@ func (k *l1Kind) snapshot() tr.M {
 		proofs = append(proofs, m)
 	}
 	s["proofs"] = proofs
+	fproofs := []tr.M{}
+	if n := k.ref.Len(); n > 0 && k.opts.ReadFaultQueries > 0 {
+		rng := rand.New(rand.NewSource(k.seed ^ int64(n)*977 ^ int64(len(k.hist))*31))
+		for q := 0; q < k.opts.ReadFaultQueries; q++ {
+			i := rng.Intn(n)
+			p := rng.Intn(i + 1)
+			r, err := k.node.GetL1InfoTreeRootByIndex(ctx, uint32(i))
+			if err != nil {
+				continue
+			}
+			at := 1 + rng.Intn(140)
+			armAuth(k.dbPath(), -1, at)
+			pr, err := k.node.GetL1InfoTreeMerkleProofFromIndexToRoot(ctx, uint32(p), r.Hash)
+			fired, _ := disarmAuth()
+			m := tr.M{"r": i, "p": p, "c": classify(err), "fired": fired, "at": at}
+			if err == nil {
+				m["sib"] = elide(k.dict, pr)
+			}
+			fproofs = append(fproofs, m)
+		}
+	}
+	s["fproofs"] = fproofs
 	// rollup exit tree
 	ur, err := k.node.GetLastRollupExitRoot(ctx)
 	um := tr.M{"c": classify(err)}
